@@ -1,6 +1,6 @@
 /-
-  The lexers of the parser model (`digit1`, `alpha1`, `lexDouble`, `lexI32`, `negCount`,
-  `parseVar`): decomposition of `lexDouble` into its stages, and the CONSUMPTION lemmas
+  The lexers of the parser model (`digit1`, `alpha1`, `lexDouble`, `parseConst`, `lexI32`,
+  `negCount`, `parseVar`): decomposition of `lexDouble` into its stages, and the CONSUMPTION lemmas
   (a successful lexer returns a strictly shorter rest).
 -/
 import Cav.Model.Parse
@@ -184,6 +184,53 @@ theorem lexDouble_length {s r : List Char} {t : E} (h : lexDouble s = some (r, t
     have h3 := stripSign_length s
     omega
   · exact lexSpecial_length h
+
+/-! ### `parseConst`: `lexDouble` plus the "word is the beginning of a name" guard -/
+
+theorem parseConst_eq (s : List Char) :
+    parseConst s =
+      match lexDouble s with
+      | some (rest, t) =>
+        if endsWithAlpha (s.take (s.length - rest.length)) && startsWithAlpha rest then none
+        else some (rest, t)
+      | none => none := rfl
+
+/-- `parseConst` accepts only what `lexDouble` accepts, with the same result -/
+theorem parseConst_some {s r : List Char} {t : E} (h : parseConst s = some (r, t)) :
+    lexDouble s = some (r, t) := by
+  rw [parseConst_eq] at h
+  split at h
+  · rename_i rest t0 hl
+    split at h
+    · cases h
+    · cases h; exact hl
+  · cases h
+
+theorem parseConst_of_lexDouble_none {s : List Char} (h : lexDouble s = none) : parseConst s = none := by
+  rw [parseConst_eq, h]
+
+/-- the guard does not fire when the rest does not start with a letter -/
+theorem parseConst_of_stop {s r : List Char} {t : E} (h : lexDouble s = some (r, t))
+    (hr : startsWithAlpha r = false) : parseConst s = some (r, t) := by
+  rw [parseConst_eq, h]
+  simp [hr]
+
+/-- the guard does not fire when the consumed text does not end with a letter -/
+theorem parseConst_of_noword {s r : List Char} {t : E} (h : lexDouble s = some (r, t))
+    (hc : endsWithAlpha (s.take (s.length - r.length)) = false) : parseConst s = some (r, t) := by
+  rw [parseConst_eq, h]
+  simp [hc]
+
+/-- the guard fires -/
+theorem parseConst_guard {s r : List Char} {t : E} (h : lexDouble s = some (r, t))
+    (hc : endsWithAlpha (s.take (s.length - r.length)) = true) (hr : startsWithAlpha r = true) :
+    parseConst s = none := by
+  rw [parseConst_eq, h]
+  simp [hc, hr]
+
+theorem parseConst_length {s r : List Char} {t : E} (h : parseConst s = some (r, t)) :
+    r.length < s.length :=
+  lexDouble_length (parseConst_some h)
 
 /-- the checked accumulation step of `lexI32` -/
 def i32Step (neg : Bool) (acc : Option Int) (c : Char) : Option Int :=
